@@ -191,4 +191,21 @@ PROPS["C02"] = dict(
     thorough=dict(checks=30000, shards=16, timeout=3000, shrinktime=30),
 )
 
+PROPS["C06"] = dict(
+    pkg="c06",
+    level="exploration",
+    technique="property-based testing (rapid): independent decoding of the produced byte string, differential verification of the detached signature over a from-the-spec rebuilt buffer (reference verifier, go.mozilla.org/pkcs7, openssl), metamorphic buffer perturbations, generated time-zone configurations",
+    level_text=("For generated (variable name, vendor GUID, attribute mask incl. APPEND_WRITE, payload: empty / signature lists / raw bytes, pool key, certificate, process time zone UTC-12h..+14h in 15-minute steps) "
+                "the bytes of the Marshallable returned by SignEFIVariable are decoded by the reference descriptor codec: 16-byte timestamp that, read as UTC, lies in the window captured around the call with pad/nanosecond/timezone/daylight zero; "
+                "dwLength == 24 + signature length, revision 0x0200, type 0x0EF1, PKCS7 GUID in wire layout; signature exactly one strict-DER bare SignedData, detached, SHA-256, accepted by the reference verifier for the given certificate, whose "
+                "messageDigest equals SHA-256 of name(UTF-16LE, unterminated) || GUID(wire) || attributes(LE32) || timestamp || payload; go.mozilla.org/pkcs7 (and, sampled, openssl smime -verify -content) accept it over that buffer and "
+                "reject it over six perturbed buffers; remaining bytes equal the payload; the returned struct encodes to the same descriptor."),
+    level_note=("Trusts ref/authvar, ref/cms, go.mozilla.org/pkcs7, openssl when present; the buffer layout is validated per run against the sbvarsign-made PK.auth and db.auth fixtures. "
+                "The time zone is configured by assigning time.Local (what TZ= does at start-up); acceptance by real firmware is out of reach."),
+    rule=("case = (name, GUID, attributes, payload, key, certificate, zone offset). Non-trivial = zone offset != 0, or APPEND_WRITE set, or non-empty payload; distinct by SHA-256 of all inputs."),
+    assumptions=["wall clock advances monotonically during a call (window check)", "ASCII variable names (the statement's domain)"],
+    quick=dict(checks=600, shards=4, timeout=900, shrinktime=15),
+    thorough=dict(checks=5000, shards=16, timeout=3000, shrinktime=30),
+)
+
 NOT_APPLICABLE = _NA()
